@@ -182,7 +182,13 @@ func (d *Document) writeJSONValue(buf *bytes.Buffer, value Value) error {
 				variableName := d.Input.ByteSliceString(d.VariableValues[objFieldValue.Ref].Name)
 				_, dataType, _, _ := jsonparser.Get(d.Input.Variables, variableName)
 				if dataType == jsonparser.NotExist {
-					continue
+					// an absent variable leaves the field out, unless the variable declares a
+					// default value: then the field takes that default
+					defaultValue, hasDefault := d.variableDefaultValueByName(d.VariableValues[objFieldValue.Ref].Name)
+					if !hasDefault {
+						continue
+					}
+					objFieldValue = defaultValue
 				}
 			}
 
@@ -239,6 +245,21 @@ func writeJSONStringContent(buf *bytes.Buffer, content []byte) {
 		}
 	}
 	buf.WriteByte('"')
+}
+
+// variableDefaultValueByName returns the default value a variable definition declares for the
+// variable with the given name, if any.
+func (d *Document) variableDefaultValueByName(name ByteSliceReference) (Value, bool) {
+	for i := range d.VariableDefinitions {
+		if !d.VariableDefinitions[i].DefaultValue.IsDefined {
+			continue
+		}
+		definedName := d.VariableValues[d.VariableDefinitions[i].VariableValue.Ref].Name
+		if d.Input.ByteSliceReferenceContentEquals(definedName, name) {
+			return d.VariableDefinitions[i].DefaultValue.Value, true
+		}
+	}
+	return Value{}, false
 }
 
 func (d *Document) ValueToJSON(value Value) ([]byte, error) {
